@@ -322,9 +322,19 @@ Definition sim (minp : bool) (es : list (nat * Z)) (v : view) : Prop :=
 Definition set_ok (a : aset) (v : view) : Prop :=
   idx_ok (a_idx a) (a_entries a) /\ sim (is_min_policy (a_policy a)) (a_entries a) v.
 
+(* the standing choice of a min-policy set against the view: it is alive, exists whenever a node is alive,
+   its latency is the measurement last told (when it has one), and no measured alive node beats it *)
+Definition min_inv (tol : Z) (a : aset) (v : view) : Prop :=
+  (forall b, a_best a = Some b -> In b (map fst (a_entries a))) /\
+  (a_entries a <> [] -> a_best a <> None) /\
+  (forall b lb, a_best a = Some b -> In (b, Some lb) v -> a_best_lat a = lb) /\
+  (forall b x la, a_best a = Some b -> In (x, Some la) v -> beats tol la (a_best_lat a) = false).
+
 Definition group_ok (c : cfg) (g : group) (s : sstate) : Prop :=
   g_store g = ss_store s /\ g_policy g = ss_policy s /\
   match g_policy g with
   | GFixed _ => g_sets g = None
-  | GSet p => exists sets, g_sets g = Some sets /\ forall t, a_policy (sets t) = p /\ set_ok (sets t) (ss_views s t)
+  | GSet p => exists sets, g_sets g = Some sets /\
+                           forall t, a_policy (sets t) = p /\ set_ok (sets t) (ss_views s t) /\
+                                     (is_min_policy p = true -> min_inv (c_tol c) (sets t) (ss_views s t))
   end.
